@@ -33,6 +33,11 @@ def _worker(args):
         moved = [e[1] for e in case["edits"] if e[0] in ("move_pkey", "move_pkey_composite")]
         removal_at_move = bool(moved) and len(res["snaps"]) > 2 and any(
             q["remote"] is not None and q["remote"][0] == "removed" and q["remote"][1] in moved for q in res["snaps"][-2]["queue"])
+        # ... or while the trashbin still holds objects of that type after a phase with handler failures
+        # (a removal retried out of turn leaves the local and the expected-state remote trashbins out of step)
+        if bool(moved) and len(res["snaps"]) > 2 and case["p_fail"] > 0 and case.get("retention"):
+            lname = {d["hermesType"]: l for l, d in case["cdmB"].items()}
+            removal_at_move = removal_at_move or any(res["snaps"][-2]["localdata"].get("trashbin_" + lname.get(t, "?")) for t in moved)
         return (evocase.analyse(case, res), evocase.step_gallina(case, res),
                 (evocase.lifecycle_has_readd(res), pending_unmapped, failed_purge, removal_at_move), None, evocase.remap_gallina(case, res))
     except Exception:
